@@ -130,6 +130,15 @@ class UserFn:
         self.fdef, self.globs, self.nested = fdef, globs, nested
 
 
+class BoundUserFn(Model):
+    """a method of the class under verification that has no contract, bound to the model of ``self``: inlined when called"""
+    def __init__(self, uf, selfobj):
+        self.uf, self.selfobj = uf, selfobj
+
+    def m_call(self, ex, st, args, kwargs, node):
+        return ex.inline(st, self.uf, [self.selfobj] + list(args), kwargs, node)
+
+
 class SymIter:
     """a symbolic iterable: ``length`` (SInt or int) and ``item(ex, st, k)`` for the loop rule"""
     def __init__(self, length, item):
@@ -603,6 +612,20 @@ class Exec:
             return self.inline(st, uf, args, kwargs, node)
         name = getattr(f, '__name__', repr(f))
         raise NotInSubset(f'call of {name} (no contract, not a modelled primitive), line {node.lineno}')
+
+    def find_method(self, selfobj, name):
+        """``self.<name>`` where the contract binds no such field: a method of the same class (helper extracted by a refactoring)"""
+        mod, qn = getattr(self, 'mod', None), getattr(self, 'qualname', None)
+        if not mod or not qn or '.' not in qn:
+            return None
+        from . import source
+        try:
+            fd, _ = source.find(mod, qn.rsplit('.', 1)[0] + '.' + name)
+        except ContractError:
+            return None
+        if not isinstance(fd, ast.FunctionDef):
+            return None
+        return BoundUserFn(UserFn(fd, self.globs, nested=False), selfobj)
 
     def user_function(self, f):
         """a function of the package under verification that has no contract: its current source is inlined at the call site
